@@ -1,1 +1,4 @@
-//! verification harness module included into `statime-csptp/src/server.rs` (guarded hook).
+//! verification harness dispatcher for hook `verif_server` of crate `statime_csptp` (guarded hook).
+//! Add one line per property cluster:   #[path = "server_<cluster>.rs"] mod <cluster>;
+//! Each sub-module has its own `#[test] fn entry()` selected by VERIF_STREAM and reaches the private
+//! items of the module the hook sits in through `super::super::*`.
